@@ -79,7 +79,7 @@ def late_script(rng, i):
     insider copies with a wrong confirmation tag, a missing PSK; failing builds."""
     names = ["A", "B", "C", "D"]
     storage = rng.choice(["mem", "sqlite"])
-    members = [{"name": n, "storage": storage, "retention": 3} for n in names]
+    members = [{"name": n, "storage": storage, "retention": 3} for n in names + ["X"]]
     ops = [{"op": "create", "who": "A"}]
     for n in names[1:]:
         ops.append({"op": "kp", "who": n, "id": "k" + n})
@@ -160,6 +160,22 @@ def late_script(rng, i):
     for n in ("B", "C"):
         ops.append({"op": "deliver", "to": n, "msg": "cok"})
     ops.append({"op": "apply", "who": "A"})
+    # 4b. an EXTERNAL commit that fails at the very end (confirmation tag): the joiner uses an
+    # external PSK for which the victim holds another value; then the value is corrected
+    for n in ("A", "C", "X"):
+        ops.append({"op": "psk_insert", "who": n, "psk_id": "aa02", "value": "2122232425262728"})
+    ops.append({"op": "psk_insert", "who": "B", "psk_id": "aa02", "value": "3132333435363738"})
+    ops.append({"op": "group_info", "who": "A", "id": "giX", "ext_commit": True, "tree_ext": True})
+    ops.append({"op": "ext_commit", "who": "X", "gi": "giX", "id": "xc", "psk": ["aa02"]})
+    ops.append({"op": "deliver", "to": "B", "msg": "xc", "snap_before": True, "observe": "B"})
+    xi = len(ops) - 1
+    ops.append({"op": "propose", "who": "B", "kind": "gce", "id": "pxb", "ext_data": "ab"})
+    ops.append({"op": "deliver", "to": "A", "msg": "pxb"})
+    ops.append({"op": "psk_insert", "who": "B", "psk_id": "aa02", "value": "2122232425262728"})
+    ops.append({"op": "deliver", "to": "B", "msg": "xc"})
+    checks.append((xi, "B", "external commit with a PSK for which the receiver holds another value", len(ops) - 1, None))
+    for n in ("A", "C"):
+        ops.append({"op": "deliver", "to": n, "msg": "xc"})
     # 5. a re-init commit, wrong confirmation tag: the victim must not be frozen
     ops.append({"op": "commit", "who": "A", "id": "cr", "reinit": True, "new_gid": "aabbcc"})
     ops.append({"op": "remac", "who": "C", "src": "cr", "id": "cr_bad", "bit": 270, "from_end": True})
